@@ -620,6 +620,11 @@ def _corrupt_e01(e):
     if e["op"] == "extras":
         o["o"]["for_ram_bundle"] = not o["o"]["for_ram_bundle"]
         return True
+    if e["op"] == "render":
+        if any(e["args"]["a"][k] >= 1 << 30 for k in ("dl", "dc", "sl", "sc")):
+            return False
+        o["alt"] = o["alt"].replace("(", "[", 1)
+        return True
     return False
 
 PROPS["E01"] = dict(
